@@ -130,6 +130,11 @@ impl NavigationState {
     }
 
 
+    /// The place markers refer to ids of the current expression, so they need to be forgotten when a new expression is set
+    pub fn clear_place_markers(&mut self) {
+        self.place_markers = Default::default();
+    }
+
     // defining reset_start_time because of the following message if done inline
     // attributes on expressions are experimental
     // see issue #15701 <https://github.com/rust-lang/rust/issues/15701> for more information
